@@ -423,6 +423,35 @@ class Tracer:
                        "srInhb": bool(fm.sr_inhb), "mulches": bool(fm.mulches), "cnAdj": bool(fm.curve_number_adj),
                        "cnAdjPct": to_num(fm.curve_number_adj_pct),
                        "effBunds": bool(fm.bunds) and float(fm.z_bund) > 0.001}
+        # what the USER specified (scenario dictionary, not the structures the code built from it) next to what the code works with, in the
+        # same encoding: Init.config demands agreement on every explicitly specified management setting
+        def _enc(v):
+            if isinstance(v, bool):
+                return bool(v)
+            if isinstance(v, (list, tuple, np.ndarray)):
+                return vec(np.asarray(v, dtype=float))
+            if isinstance(v, (int, float, np.integer, np.floating)):
+                return to_num(float(v))
+            return str(v)
+        user = {"irr": {}, "field": {}, "fallow": {}}
+        built = {"irr": {}, "field": {}, "fallow": {}}
+        uirr = sc.get("irr") or {}
+        if uirr:
+            user["irr"]["irrigation_method"] = _enc(int(uirr.get("method", 0)))
+            built["irr"]["irrigation_method"] = _enc(int(irr.irrigation_method))
+            for k, v in (uirr.get("kw") or {}).items():
+                if k in ("Schedule",) or not hasattr(irr, k):
+                    continue
+                user["irr"][k] = _enc(v)
+                built["irr"][k] = _enc(getattr(irr, k))
+        for nm, fm in (("field", ps.FieldMngt), ("fallow", ps.FallowFieldMngt)):
+            for k, v in (sc.get(nm) or {}).items():
+                if not hasattr(fm, k):
+                    continue
+                user[nm][k] = _enc(float(v) * 1000.0 if k == "z_bund" else v)
+                built[nm][k] = _enc(getattr(fm, k))
+        cfg["user"] = user
+        cfg["built"] = built
         # user's schedule (by date) for the by-date clause of C13
         sch = []
         um = m.irrigation_management
@@ -514,6 +543,8 @@ class Tracer:
         if self._reset_called:
             # flags below are post-reset; the pre-reset flags are not observable any more except through the summary
             d["postReset"] = True
+        d["statKeys"] = [digest("|".join(hexf(v) if isinstance(v, (float, np.floating)) else str(v) for v in out.final_stats.iloc[j].tolist()))
+                         for j in range(len(out.final_stats))]
         if len(out.final_stats) > 0:
             last = out.final_stats.iloc[-1]
             d["lastStat"] = {"season": int(last.iloc[0]), "harvDate": ordinal(last.iloc[2]), "step": int(last.iloc[3]),
